@@ -38,11 +38,20 @@ func shuffleValidators(
 ) ([]*node.Node, error) {
 	switch beaconParameters.Backend { // Used so that we can break to fallback.
 	case beacon.BackendVRF:
+		// Count the validators that can actually be elected from the nodes that have submitted
+		// proofs: only MaxValidatorsPerEntity nodes of an entity are elected, so the further nodes
+		// of an entity do not help to reach the minimum.
 		var numValidatorsWithPi int
+		perEntity := make(map[signature.PublicKey]int)
 		for _, n := range nodes {
-			if vrf.Pi[n.ID] != nil {
-				numValidatorsWithPi++
+			if vrf.Pi[n.ID] == nil {
+				continue
 			}
+			if perEntity[n.EntityID] >= schedulerParameters.MaxValidatorsPerEntity {
+				continue
+			}
+			perEntity[n.EntityID]++
+			numValidatorsWithPi++
 		}
 		if numValidatorsWithPi < schedulerParameters.MinValidators {
 			// If not enough validators have submitted proofs to
